@@ -20,6 +20,10 @@ REGEXES = [
     (r"key=.*;val", b"key=1;2;val"), (r"\bfoo\w*bar\b", b" fooxbar "), (r"ab.c", b"ab\ncabxc"),
     (r"(one|two|three) [a-z]+s\b", b"two cats "), (r"q[0-9a-f]{4,}z", b"q12abz"), (r"mid.{0,4}dle.*?end", b"mid12dle xx end"),
     (r"\Bnner\B", b"inners"), (r"a+b+c+", b"aabbbc"), (r"zz(top|bottom)?yy.z", b"zztopyy1z"),
+    # no literal to extract: raw matchers
+    (r"[a-z]+\d{2}", b"abc42"), (r"\d\d:\d\d", b"12:34"), (r"[A-Z][a-z]+ [A-Z][a-z]+", b"Hello World"),
+    (r"\b[a-c]{2,3}\b", b" abc "), (r"[xyz]{2}.[xyz]{2}", b"xy-zx"), (r"(a|b)(c|d)+[ef]", b"acdde"),
+    (r"[a-f0-9]{8}", b"deadbeef"), (r"\w\W\w", b"a-b"), (r"[Hh]el+o", b"hello HELLO"),
 ]
 WORDS = ["hello", "World", "abcdef", "MZheader", "needle", "x1y2z3", "Passw0rd", "kernel32", "A\\x00\\x00\\x00x", "ab",
          "dummyTEXT", "This program", "a\\x00", "quux", "http://", "\\x01\\x02\\x03\\x04"]
@@ -48,6 +52,60 @@ def wide(b):
     return b"".join(bytes([x, 0]) for x in b)
 
 
+def py_decode(env, sch, b, pos, hits):
+    """decode under translated schemas (evidence only: which enum variants occur in the real byte streams)"""
+    k = sch[0]
+    if k == "Ref":
+        if env[sch[1]][0] == "Enum":
+            return py_decode_enum(env, sch[1], env[sch[1]], b, pos, hits)
+        return py_decode(env, env[sch[1]], b, pos, hits)
+    if k == "U8":
+        return pos + 1
+    if k in ("U32", "NZ32"):
+        return pos + 4
+    if k in ("U64", "I64", "F64"):
+        return pos + 8
+    if k == "Bool":
+        return pos + 1
+    if k in ("Str", "Bytes"):
+        n = int.from_bytes(b[pos:pos + 4], "little")
+        return pos + 4 + n
+    if k == "Seq":
+        n = int.from_bytes(b[pos:pos + 4], "little")
+        pos += 4
+        for _ in range(n):
+            pos = py_decode(env, sch[1], b, pos, hits)
+        return pos
+    if k == "Map":
+        n = int.from_bytes(b[pos:pos + 4], "little")
+        pos += 4
+        for _ in range(n):
+            pos = py_decode(env, sch[1], b, pos, hits)
+            pos = py_decode(env, sch[2], b, pos, hits)
+        return pos
+    if k == "Opt":
+        t = b[pos]
+        hits["Option." + ("Some" if t else "None")] = hits.get("Option." + ("Some" if t else "None"), 0) + 1
+        return py_decode(env, sch[1], b, pos + 1, hits) if t else pos + 1
+    if k == "Struct":
+        for _, t in sch[1]:
+            pos = py_decode(env, t, b, pos, hits)
+        return pos
+    if k == "Enum":
+        return py_decode_enum(env, "?", sch, b, pos, hits)
+    raise ValueError(k)
+
+
+def py_decode_enum(env, name, sch, b, pos, hits):
+    tag = b[pos]
+    for c, t, body in sch[1]:
+        if t == tag:
+            key = "wire %s::%s" % (name, c)
+            hits[key] = hits.get(key, 0) + 1
+            return py_decode(env, body, b, pos + 1, hits)
+    raise ValueError("tag %d of %s" % (tag, name))
+
+
 class Gen:
     def __init__(self, rng):
         self.r = rng
@@ -67,6 +125,10 @@ class Gen:
                 b = r.below(256)
                 toks.append(r.choice(["%X?" % (b >> 4), "?%X" % (b & 15), "??"]))
                 inst.append(b)
+            elif k == 6 and r.chance(1, 2):
+                b = r.below(256)
+                toks.append(r.choice(["~%X?" % (b >> 4), "~?%X" % (b & 15)]))
+                inst.append(b ^ 0xFF)
             elif k == 6:
                 b = r.below(256)
                 toks.append("~%02X" % b)
@@ -188,7 +250,8 @@ class Gen:
             ('for any s in pe.sections : (s.name == ".text" or s.raw_data_size >= 0)', "pe"),
             ('for any k, v in pe.version_info : (k == "x" or v contains "a")', "pe"), ("pe.is_32bit() or pe.is_64bit()", "pe"),
             ('pe.exports("x") or pe.number_of_exports >= 0', "pe"), ("pe.rich_signature.offset >= 0 or true", "pe"),
-            ("pe.sections[0].virtual_address >= 0", "pe"), ('pe.calculate_checksum() >= 0', "pe"),
+            ("pe.sections[0].virtual_address >= 0", "pe"), ("pe.exports(/ab/) or not pe.exports(/ab/i)", "pe"),
+            ('pe.imports(/kernel32/i, /.*/) >= 0', "pe"), ('pe.imports(pe.IMPORT_ANY, "kernel32.dll", "x") or true', "pe"), ('pe.calculate_checksum() >= 0', "pe"),
             ("elf.type == elf.ET_EXEC or elf.type == elf.ET_DYN", "elf"), ("elf.machine == elf.EM_X86_64 or elf.number_of_sections >= 0", "elf"),
             ("for any seg in elf.segments : (seg.type == elf.PT_LOAD)", "elf"), ("defined elf.entry_point", "elf"),
             ("macho.MH_MAGIC == 0xfeedface", "macho"), ("macho.cputype == macho.CPU_TYPE_X86 or defined macho.filetype", "macho"),
@@ -421,6 +484,8 @@ class C10(Prop):
         problems = []
         try:
             tr, text = wire_schema.translate(core.REPO)
+            self._env = tr.read
+            self._variants = ["wire %s::%s" % (n, c) for n, sch in tr.read.items() if sch[0] == "Enum" for c, _, _ in sch[1]]
             core.write_if_changed(os.path.join(core.COQ, "theories", "Model", "WireSchemas.v"), text)
             ctx.count("wire_blocks", len(tr.blocks))
             ctx.count("wire_impls", tr.nimpl)
@@ -441,7 +506,10 @@ class C10(Prop):
 
     def generate(self, ctx, rng, n):
         a = self.assets()
-        return [Gen(rng.fork("c%d" % i)).case(a) for i in range(n)]
+        cases = [Gen(rng.fork("c%d" % i)).case(a) for i in range(n)]
+        # small rule sets first: the first violation reported is then the easiest to read
+        cases.sort(key=lambda c: sum(len(r["src"]) for r in c["rules"]))
+        return cases
 
     def budget(self, tier):
         return 260 if tier == "quick" else 4000
@@ -476,6 +544,17 @@ class C10(Prop):
                     ctx.count("string matches seen", o.get("n_matches", 0))
                     ctx.count("rule matches seen", o.get("n_rule_matches", 0))
                     ctx.count("file bytes", len(o["file"]) // 2)
+                    env = getattr(self, "_env", None)
+                    if env:
+                        try:
+                            hits = {}
+                            py_decode(env, ("Ref", "Scanner"), bytes.fromhex(o["file"]), 20, hits)
+                            for k, v in hits.items():
+                                ctx.count(k, v)
+                        except Exception:
+                            ctx.count("python-side decode failed")
+        missing = [v for v in getattr(self, "_variants", []) if v not in ctx.dist]
+        ctx.dist["wire variants never produced"] = missing
         return outs
 
     # ---------------------------------------------------------------- Coq term
